@@ -222,7 +222,9 @@ class Blockwise(ArrayExpr):
         """Map symbolic indices to output block coordinates."""
         idx_to_block = {idx: block_id[dim] for dim, idx in enumerate(self.out_ind)}
         for idx in self.new_axes:
-            idx_to_block[idx] = 0
+            # a new axis that is part of the output keeps the output block's
+            # coordinate (a BlockwiseDep argument may be indexed by it)
+            idx_to_block.setdefault(idx, 0)
         return idx_to_block
 
     def _dep_block_id(self, arr, ind, idx_to_block: dict) -> tuple[int, ...]:
